@@ -6,6 +6,8 @@ import (
 	"fmt"
 	"io"
 	"net"
+	"strconv"
+	"strings"
 	"sync"
 	"time"
 
@@ -170,7 +172,7 @@ func GRPCAcceptServe(b *plugin.GRPCBroker, id uint32, nonce string, slow ...time
 				time.Sleep(d)
 			}
 			s := grpc.NewServer(opts...)
-			grpctest.RegisterPingPongServer(s, &pingPong{msg: fmt.Sprintf("%d/%s", id, nonce)})
+			grpctest.RegisterPingPongServer(s, &pingPong{msg: pingMsg(id, nonce)})
 			h.mu.Lock()
 			h.srv = s
 			stopped := h.stopped
@@ -234,9 +236,19 @@ func GRPCAcceptRaw(b *plugin.GRPCBroker, id uint32, nonce string) *RawHandle {
 	}
 	h.ln = ln
 	h.srv = grpc.NewServer()
-	grpctest.RegisterPingPongServer(h.srv, &pingPong{msg: fmt.Sprintf("%d/%s", id, nonce)})
+	grpctest.RegisterPingPongServer(h.srv, &pingPong{msg: pingMsg(id, nonce)})
 	go h.srv.Serve(&onceListener{Listener: ln, h: h})
 	return h
+}
+
+// pingMsg is what the PingPong server accepted on id answers: "<id>/<nonce>", or, for a nonce of the form
+// "big:<n>", "<id>/" followed by n filler bytes (a large response on a brokered connection).
+func pingMsg(id uint32, nonce string) string {
+	if strings.HasPrefix(nonce, "big:") {
+		n, _ := strconv.Atoi(strings.TrimPrefix(nonce, "big:"))
+		return fmt.Sprintf("%d/", id) + strings.Repeat("B", n)
+	}
+	return fmt.Sprintf("%d/%s", id, nonce)
 }
 
 // DialRes is the outcome of dialling an id and making the first call.
